@@ -180,6 +180,11 @@ def run_check(modname, tier, seed, replay=None, nproc=None, max_cases=None):
             print("---- violating case:", json.dumps(v.get("case"), default=str))
             print(v.get("detail", "")[:3000])
         print(f"({len(new_viols)} violating case(s) in total)")
+        hist = {}
+        for v in new_viols:
+            hist[v.get("finding")] = hist.get(v.get("finding"), 0) + 1
+        for k, n in sorted(hist.items(), key=lambda x: -x[1])[:30]:
+            print(f"    {n:7d}  finding={k}")
     # ---- evidence
     keys = set()
     nontriv = set()
